@@ -80,7 +80,7 @@ def mon_C01(sc, trace, probes, info):
         if p[2] != exp:
             out.append(('task %r spawned at %r with %r started at %r, expected %r' % (p[1], t, start, p[2], exp), None))
     times = [e[0] for e in trace]
-    if any(b < a for a, b in zip(times, times[1:])):
+    if not sc.get('float_times') and any(b < a for a, b in zip(times, times[1:])):
         out.append(('event times decrease in the trace', None))
     e = info.get('exc')
     if isinstance(e, AssertionError) and not hasattr(e, 'serial') and 'schedule date' in str(e):
@@ -331,11 +331,13 @@ def mon_C07(sc, trace, probes, info):
             out.append(('until %r (%r) entered at %r was left at %r although its notification fired at %r' % (name, w, t0, t1, trig), finding))
         if isinstance(exc, CancelScope) and getattr(exc, 'subject', None) is info['env'].scope_objs.get(name):
             out.append(('until %r raised its own interrupt %r' % (name, exc), None))
-        if isinstance(body, CancelScope) and body.subject is info['env'].scope_objs.get(name) and exc is None and trig is not None and t1 != trig:
+        if isinstance(body, CancelScope) and body.subject is info['env'].scope_objs.get(name) \
+                and body.token != ('Scope._cancel_self',) and exc is None and trig is not None and t1 != trig:
             # interrupted by its own notification at another time than the trigger time
             if not (trig is not None and t1 > trig):
                 out.append(('until %r was interrupted at %r but its notification fires at %r' % (name, t1, trig), None))
-    if sc.get('till') is not None:
+    if sc.get('till') is not None and tv(sc['till']) >= tv(sc['start']):
+        # (a till date before the start is `time == past`: it never fires and the run goes to quiescence)
         T = tv(sc['till'])
         for e in trace[:-2]:
             if e[0] > T:
